@@ -54,6 +54,7 @@ type UnitSpec struct {
 	Prefer         string                `json:"prefer"` // "" (pipe first) or a one-shot solver name tried first for hard arithmetic
 	PipeTimeoutMS  int                   `json:"pipe_timeout_ms"`
 	AssertTimeoutS int                   `json:"assert_timeout_s"`
+	Stubs          map[string]string `json:"stubs"` // function key -> harness function replacing it under the engine (environment stubs)
 	genBounds      map[string]any
 }
 
@@ -474,6 +475,14 @@ func runUnit(id, hdir, scratch string, u UnitSpec, o runOpts, listed map[string]
 			}
 			if u.AssertTimeoutS > 0 {
 				cfg.assertTimeoutS = u.AssertTimeoutS
+			}
+			if len(u.Stubs) > 0 {
+				cfg.stubs = map[string]*ssa.Function{}
+				for k, v := range u.Stubs {
+					if f := main.Func(v); f != nil {
+						cfg.stubs[k] = f
+					}
+				}
 			}
 			in := NewInterp(prog, cfg)
 			defer in.solver.Close()
